@@ -639,15 +639,15 @@ func registerTime(e *Engine) {
 		if n, ok := t.ns.(int64); ok && ok1 && ok2 && ok3 && !t.zero {
 			return timeVal{ns: time.Unix(0, n).UTC().AddDate(int(y), int(m), int(d)).UnixNano()}
 		}
-		if !ok1 || !ok2 || !ok3 {
-			abort("unmodelled", "AddDate with symbolic offsets")
-		}
-		// symbolic instant: calendar arithmetic abstracted by an uninterpreted,
-		// monotone function of the instant (per offset triple)
-		r := App(fmt.Sprintf("adddate_%d_%d_%d", y, m, d), SInt, timeTerm(t))
-		if y >= 0 && m >= 0 && d >= 0 {
-			fr.p.assume(Ge(r, timeTerm(t)))
-		}
+		// symbolic instant or offsets: calendar arithmetic abstracted by an
+		// uninterpreted function of (instant, years, months, days), monotone for
+		// non-negative offsets
+		yt, _ := toTerm(args[1])
+		mt, _ := toTerm(args[2])
+		dt, _ := toTerm(args[3])
+		r := App("adddate", SInt, timeTerm(t), yt, mt, dt)
+		nonneg := And(Ge(yt, IntConst64(0)), Ge(mt, IntConst64(0)), Ge(dt, IntConst64(0)))
+		fr.p.assume(Implies(nonneg, Ge(r, timeTerm(t))))
 		return timeVal{ns: r}
 	})
 	e.reg("(time.Duration).String", func(fr *frame, args []value) value {
